@@ -547,6 +547,44 @@ pub fn pool_runs(outp: &str, thorough: bool, seed: u64) {
             }
         }
     }
+    // a state with three occupied sites (library API), constructed anew for every invocation: equal
+    // arguments must give equal states, whatever container the constructor uses internally
+    {
+        id += 1;
+        let short: Vec<&str> = vec!["--steps", "40", "--inner-steps", "20", "--kt-start", "0.05", "--kt-ratio", "0.3", "--max-step-size", "0.05"];
+        let g = group("p2mm");
+        let small: Vec<(usize, rayon::ThreadPool)> = [1usize, 3]
+            .iter()
+            .filter_map(|n| rayon::ThreadPoolBuilder::new().num_threads(*n).build().ok().map(|p| (*n, p)))
+            .collect();
+        for _ in 0..(if thorough { 12 } else { 6 }) {
+            let sites: Vec<packing::wallpaper::WyckoffSite> = ['a', 'b', 'c']
+                .iter()
+                .filter_map(|l| packing::wallpaper::WyckoffSite::new(&g).ok().map(|mut s| {
+                    s.letter = *l;
+                    s
+                }))
+                .collect();
+            let st = PackedState::initialise(LineShape::polygon(4).unwrap(), packing::wallpaper::Wallpaper::new(&g), &sites);
+            // the three sites apart from each other, as a user would place them
+            if let Ok(mut j) = serde_json::to_value(&st) {
+                for (k, (x, y)) in [(0.1, 0.1), (0.3, 0.2), (0.2, 0.4)].iter().enumerate() {
+                    // by letter, so that the placement does not depend on the order of the sites
+                    if let Some(sites) = j["occupied_sites"].as_array_mut() {
+                        for s in sites.iter_mut() {
+                            if s["wyckoff"]["letter"].as_str() == Some(&['a', 'b', 'c'][k].to_string()) {
+                                s["x"] = json!(x);
+                                s["y"] = json!(y);
+                            }
+                        }
+                    }
+                }
+                if let Ok(st) = serde_json::from_value::<PackedState<LineShape>>(j) {
+                    one_config(&mut out, id, "p2mm squares on three sites, constructed per invocation", st, &short, 2, &small);
+                }
+            }
+        }
+    }
     // short hot runs: final LJ scores of both signs
     let hot: Vec<&str> = vec!["--steps", "10", "--inner-steps", "10", "--kt-start", "100", "--kt-ratio", "0", "--max-step-size", "0.1"];
     if let Ok(st) = PotentialState::from_group(LJShape2::circle(), &group("p1")) {
